@@ -534,7 +534,7 @@ func c12Script(r *gen.Rng, o *out.W) {
 	will := &packet.Message{Topic: "will/" + fmt.Sprint(w.seq), Payload: []byte(fmt.Sprintf("will-%d", w.seq)), QOS: packet.QOS(r.Intn(3)), Retain: r.Bool()}
 	c := w.Conn()
 	state := r.Intn(6)
-	cause := r.Intn(13)
+	cause := r.Intn(14)
 	desc := fmt.Sprintf("state=%d cause=%d", state, cause)
 	o.Count("c12/" + desc)
 	ka := uint16(0)
@@ -616,6 +616,17 @@ func c12Script(r *gen.Rng, o *out.W) {
 				} else {
 					w.Drop(c)
 				}
+			case 13:
+				// the DISCONNECT has been read, but before the broker acts on it the connection starts dying for another
+				// reason (what a takeover or a shutdown does to it): it still ended with a DISCONNECT — no will
+				cc := c
+				w.mu.Lock()
+				w.onDisconnect[cc] = func() {
+					w.clients[cc].Close()
+					<-w.clients[cc].Closing()
+				}
+				w.mu.Unlock()
+				w.Send(c, &packet.Disconnect{})
 			default:
 				w.Drop(c)
 			}
@@ -1066,6 +1077,84 @@ func c11Storm(r *gen.Rng, o *out.W) {
 	o.Sample(fmt.Sprintf("subscribe/retained-publish storm: %d subscribers, %d publishers", nsub, npub))
 }
 
+// a slow subscriber blocks a publisher and then goes away (C14): the subscriber never acknowledges, its window and its
+// queue fill up, the next matching publish waits inside the backend for room; when the subscriber's connection ends the
+// publisher must be released, the subscriber terminated, and everybody else keeps working.  The model does not cover a
+// publish that waits on another online client's queue (it answers `unsupported`: the rest of the case is judged by the
+// monitors and the watchdog only).
+func c14SlowSubscriber(r *gen.Rng, o *out.W) {
+	q := 1 + r.Intn(2)
+	w := newWorld(o, "C14", 1, q, nil)
+	wit := w.Conn()
+	w.Connect(wit, "W", true, nil, 0, "", "")
+	w.Subscribe(wit, packet.Subscription{Topic: "other/#", QOS: 0})
+	w.mustSurvive[wit] = true
+	s := w.Conn()
+	w.Connect(s, "S", r.Bool(), nil, 0, "", "")
+	w.Subscribe(s, packet.Subscription{Topic: "x/#", QOS: 1})
+	p := w.Conn()
+	w.Connect(p, "P", true, nil, 0, "", "")
+	w.mustSurvive[p] = true
+	for i := 0; i < q+2; i++ {
+		w.Publish(p, "x/y", 1, false, false) // the last one waits for room in S's queue
+	}
+	w.Drop(s) // the slow subscriber goes away
+	w.Publish(p, "other/z", 0, false, false)
+	w.Publish(wit, "other/z", 0, false, false)
+	w.Send(p, &packet.Pingreq{})
+	w.finish()
+	o.Distinct(fmt.Sprintf("slow subscriber q=%d", q))
+	o.Sample(fmt.Sprintf("slow subscriber blocks a publisher, queue %d, %d lines", q, len(w.trace)))
+}
+
+// the backend fails right after the client was accepted (C20): Restore returns an error when the CONNACK has already
+// been sent — the connection is closed, and never gets a second CONNACK.  Monitors only (the model has no failing
+// backend calls).
+func c20RestoreFails(r *gen.Rng, o *out.W) {
+	nextNoModel = true
+	w := newWorld(o, "C20", 10, 100, nil)
+	c := w.Conn()
+	w.Connect(c, "R", false, nil, 0, "", "")
+	w.Subscribe(c, packet.Subscription{Topic: "r", QOS: 1})
+	w.Publish(c, "r", 1, false, false)
+	w.Drop(c)
+	c2 := w.Conn()
+	w.peers[c2].unacked = w.peers[c].unacked
+	w.mu.Lock()
+	w.failRestore = true
+	w.mu.Unlock()
+	w.Connect(c2, "R", r.Bool(), nil, 0, "", "")
+	w.Send(c2, &packet.Pingreq{})
+	w.finish()
+	o.Distinct("restore fails")
+	o.Sample("Backend.Restore fails after the CONNACK")
+}
+
+// an observer that is busy when the will is due (C12): its window is used up and its session queue is full, so the
+// will waits inside the backend for room; once the observer acknowledges, the will arrives — exactly once.  (Outside the
+// model's envelope, see c14SlowSubscriber.)
+func c12BusyObserver(r *gen.Rng, o *out.W) {
+	w := newWorld(o, "C12", 1, 1, nil)
+	obs := w.Conn()
+	w.Connect(obs, "OBS", r.Bool(), nil, 0, "", "")
+	w.Subscribe(obs, packet.Subscription{Topic: "will/#", QOS: 1})
+	w.mustSurvive[obs] = true
+	p := w.Conn()
+	w.Connect(p, "P", true, nil, 0, "", "")
+	w.Publish(p, "will/x", 1, false, false) // delivered to OBS, not acknowledged: window used
+	w.Publish(p, "will/x", 1, false, false) // queued: queue full
+	v := w.Conn()
+	w.seq++
+	will := &packet.Message{Topic: "will/v", Payload: []byte(fmt.Sprintf("will-%d", w.seq)), QOS: packet.QOS(1 + r.Intn(2))}
+	w.Connect(v, "V", true, will, 0, "", "")
+	w.Drop(v) // the will has to wait for room in OBS's queue
+	w.AckAll(obs)
+	w.AckAll(obs)
+	w.finish()
+	o.Distinct("busy observer")
+	o.Sample("will towards an observer whose window and queue are full")
+}
+
 // takeover storms for C13
 func c13Script(r *gen.Rng, o *out.W) {
 	w := newWorld(o, "C13", 1+r.Intn(3), 100, nil)
@@ -1241,7 +1330,8 @@ func TestHarness(t *testing.T) {
 	switch *fProp {
 	case "C06":
 		rs("C06 random history", func() profile {
-			return profile{window: 10, queue: 100, clients: 1 + r.Intn(5), steps: 30 + r.Intn(40), wSub: 6, wUnsub: 3, wPub: 10, wAck: 7, wPing: 1, qos: all, multiFilter: true}
+			// small windows too: messages then sit in the session queue while subscriptions change
+			return profile{window: []int{1, 2, 3, 10, 10}[r.Intn(5)], queue: 100, clients: 1 + r.Intn(5), steps: 30 + r.Intn(40), wSub: 6, wUnsub: 3, wPub: 10, wAck: []int{2, 7}[r.Intn(2)], wPing: 1, qos: all, multiFilter: true}
 		})
 		sc("C06 concurrent storm", func(r *gen.Rng, o *out.W) { concStorm(r, o, "C06") })
 	case "C07":
@@ -1262,6 +1352,9 @@ func TestHarness(t *testing.T) {
 		sc("C11 subscribe/publish storm", c11Storm)
 	case "C12":
 		sc("C12 termination", c12Script)
+		if *fShard < 4 {
+			runCase(t, o, "C12 busy observer", func() { c12BusyObserver(r, o) })
+		}
 	case "C13":
 		sc("C13 takeover", c13Script)
 		sc("C13 concurrent storm", func(r *gen.Rng, o *out.W) { concStorm(r, o, "C13") })
@@ -1271,6 +1364,9 @@ func TestHarness(t *testing.T) {
 			return profile{window: 2 + r.Intn(4), queue: 100, clients: 2 + r.Intn(4), steps: 30 + r.Intn(40), wSub: 4, wUnsub: 1, wPub: 8, wAck: 4, wDrop: 3, wRecon: 4, wRelease: 1, wPing: 1, wBad: 6, wFail: 3, retain: 20, wills: true, qos: all, multiFilter: true}
 		})
 		sc("C14 own queue", c14OwnQueue)
+		if *fShard < 4 {
+			runCase(t, o, "C14 slow subscriber", func() { c14SlowSubscriber(r, o) })
+		}
 		if *fShard < 2 {
 			runCase(t, o, "C14 huge topics", func() { c14Huge(r, o) })
 		}
@@ -1287,6 +1383,9 @@ func TestHarness(t *testing.T) {
 	case "C20":
 		sc("C20 request/response", c20Script)
 		sc("C20 long runs", c20Long)
+		if *fShard < 4 {
+			runCase(t, o, "C20 restore fails", func() { c20RestoreFails(r, o) })
+		}
 	default:
 		t.Fatalf("unknown property %s", *fProp)
 	}
